@@ -446,6 +446,128 @@ def check_ws_class(cx, chk, g):
     chk.ok("C12.tokens", "whitespace is one class", {"whitespace_characters": sorted(WS), "choices_naming_whitespace_outside_the_class_rules": n})
 
 
+MAXC = 0x10FFFF
+
+
+def _norm_set(iv):
+    out = []
+    for a, b in sorted(iv):
+        if a > b:
+            continue
+        if out and a <= out[-1][1] + 1:
+            out[-1] = (out[-1][0], max(out[-1][1], b))
+        else:
+            out.append((a, b))
+    return out
+
+
+def _minus(x, y):
+    out = []
+    for a, b in x:
+        cur = a
+        for c, d in y:
+            if d < cur or c > b:
+                continue
+            if c > cur:
+                out.append((cur, c - 1))
+            cur = max(cur, d + 1)
+        if cur <= b:
+            out.append((cur, b))
+    return _norm_set(out)
+
+
+def one_char_set(g, e, depth=0):
+    """The set of characters c such that expression e matches exactly c (as intervals of code points), or None when e is not
+    of a single-character form this computation understands."""
+    if depth > 8 or not isinstance(e, tuple) or not e:
+        return None
+    k = e[0]
+    if k == "lit":
+        if len(e[1]) != 1 or len(e[1][0]) != 1:
+            return None
+        c = e[1][0]
+        cs = {ord(c)} | ({ord(c.lower()), ord(c.upper())} if e[2] and c.isascii() else set())
+        return _norm_set([(x, x) for x in cs])
+    if k == "range":
+        return _norm_set([(ord(e[1]), ord(e[2]))])
+    if k == "ref":
+        return one_char_set(g, ("field", None, False, e[1]), depth + 1)
+    if k == "field":
+        if e[3] == "char":
+            return [(0, MAXC)]
+        r = g.rule(e[3])
+        if r is None:
+            return None
+        if r.kind == "char" and r.char_parts is not None and not r.checks:
+            acc = []
+            for p_ in r.char_parts:
+                s_ = one_char_set(g, p_, depth + 1)
+                if s_ is None:
+                    return None
+                acc += s_
+            return _norm_set(acc)
+        if r.kind == "rule" and r.body is not None and not r.checks:
+            return one_char_set(g, r.body, depth + 1)
+        return None
+    if k == "group":
+        return one_char_set(g, e[1], depth + 1)
+    if k == "choice":
+        acc = []
+        for a in e[1]:
+            s_ = one_char_set(g, a, depth + 1)
+            if s_ is None:
+                return None
+            acc += s_
+        return _norm_set(acc)
+    if k == "seq":
+        items = list(e[1])
+        negs = []
+        while items and items[0][0] == "neg":
+            s_ = one_char_set(g, items[0][1], depth + 1)
+            if s_ is None:
+                return None
+            negs += s_
+            items = items[1:]
+        if len(items) != 1:
+            return None
+        s_ = one_char_set(g, items[0], depth + 1)
+        if s_ is None:
+            return None
+        return _minus(s_, _norm_set(negs))
+    return None
+
+
+def check_comment(cx, chk, g):
+    """A `#` comment runs to the end of its line whatever it contains: the class of characters one iteration of the comment's
+    body accepts is every character except the line feed (decided on grammar.ebnf's Comment rule; an unrecognised shape is left
+    undecided)."""
+    r = g.rule("Comment")
+    if r is None or r.body is None:
+        chk.anchor_missing("C12.tokens", "rule Comment of grammar.ebnf")
+        return
+    b = r.body
+    while b[0] in ("choice", "group") and (b[0] == "group" or len(b[1]) == 1):
+        b = b[1] if b[0] == "group" else b[1][0]
+    if not (b[0] == "seq" and len(b[1]) == 3 and b[1][0][0] == "lit" and b[1][1][0] == "closure" and b[1][2] == ("lit", ("\n",), False)):
+        chk.ok("C12.tokens", "comment body class", {"decided": False, "reason": "Comment is not of the form '#' {body} '\\n'"})
+        return
+    cs = one_char_set(g, b[1][1][1])
+    if cs is None:
+        chk.ok("C12.tokens", "comment body class", {"decided": False, "reason": "the body of the closure is not a single-character expression"})
+        return
+    want = [(0, 9), (11, MAXC)]
+    if cs == want:
+        chk.ok("C12.tokens", "comment body class", {"decided": True, "class": "every character except U+000A"})
+        return
+    missing = _minus(want, cs)
+    extra = _minus(cs, want)
+    show = lambda iv: ", ".join("U+%04X" % a if a == b_ else "U+%04X-U+%04X" % (a, b_) for a, b_ in iv[:6])
+    chk.violation("C12.tokens", "Comment body class",
+                  "a `#` comment of a grammar text may not contain %s%s: a grammar file whose comments contain such a character (U+000D: every comment "
+                  "of a file with CRLF line ends) is rejected as a whole although the documented syntax lets a comment run to the end of the line"
+                  % (show(missing) if missing else "-", ("; it also swallows " + show(extra)) if extra else ""), "grammar.ebnf:Comment")
+
+
 def check_use(cx, chk):
     """What the front end reads it hands to the generator: every named field of the syntax-tree types generated from grammar.ebnf
     is read by the generator's own code somewhere.  A field that is filled but never read is a part of the grammar text that is
@@ -506,6 +628,7 @@ def run(cx, chk):
     check_flags(cx, chk, g)
     check_tokens(cx, chk, g)
     check_ws_class(cx, chk, g)
+    check_comment(cx, chk, g)
     check_use(cx, chk)
     check_crc(cx, chk)
     try:
